@@ -163,8 +163,11 @@ def run_one(args):
         # let the consuming thread finish: cancel what is left, it must then return
         try:
             ch.stop_consuming()
-        except amqpstorm.AMQPError:
-            pass
+            out['final_stop'] = 'returned'
+        except amqpstorm.AMQPError as why:
+            out['final_stop'] = 'raised %s' % type(why).__name__
+        ctx.quiesce()
+        out['after_stop'] = (sorted(ch.consumer_tags), sorted(bc['consumers']))
         if cons is not None:
             ctx.join(cons, timeout=3)
             out['consumer_alive'] = not cons.done
@@ -309,6 +312,9 @@ def check(rep):
             forgot = sorted(set(r.get('broker_tags', [])) - set(r.get('client_tags', [])))
             sig = 'C14/client-forgot-active-consumer' if forgot else 'C14/client-keeps-dead-consumer'
             rep.violation(sig, 'at quiescence the client lists %r, the broker has %r' % (r.get('client_tags'), r.get('broker_tags')), replay)
+        if r.get('final_stop') == 'returned' and r.get('after_stop') and (r['after_stop'][0] or r['after_stop'][1]):
+            rep.violation('C14/stop-consuming-leaves-consumers', 'after stop_consuming() returned the client lists %r and the broker still '
+                          'delivers to %r' % (r['after_stop'][0], r['after_stop'][1]), replay)
         if r.get('consumer_alive'):
             rep.violation('C14/start-consuming-does-not-return', 'no consumer left but start_consuming() keeps running', replay)
         for (bound, got) in r.get('received', []):
